@@ -4,7 +4,7 @@ import "time"
 
 func init() {
 	register(&Prop{
-		ID: "C19", Level: "exploration", Floor: 1000,
+		ID: "C19", Level: "exploration", Floor: 3000,
 		Rule: "a case = one configuration file (TOML text: every optional key independently unset / valid / zero / malformed, the shipped " +
 			"app_config.toml verbatim and with single-key perturbations, sparse and broken files) loaded by the real ParseConfig, plus a plan of " +
 			"4 (quick) / 8 (thorough) reload steps mixing valid, malformed and unreadable configuration and subnet files; evaluations = files put " +
